@@ -566,6 +566,9 @@ pub unsafe fn rec_clone(src: *const u8, dst: *mut u8, count: usize) {
         kani::assert((s - gh.v[k].base) % esz == 0, "C05: cloned range starts on an element boundary");
         semantic_read(s, bytes);
     }
+    // user code (the element's Clone) runs now, before anything is written: the panic-view
+    // invariant must hold in the state the call-out finds
+    callout_invariant();
     let d = off(dst as *const u8);
     if let Some(d) = d {
         kani::assert(in_current_region(d, bytes), "C05: clones are written inside the current target storage");
@@ -599,7 +602,6 @@ pub unsafe fn rec_clone(src: *const u8, dst: *mut u8, count: usize) {
     gh.last_clone_src = s;
     gh.last_clone_dst = match d { Some(d) => d, None => usize::MAX };
     gh.last_clone_n = count;
-    callout_invariant();
 }
 
 // ------------------------------------------------------------------------------------------
